@@ -661,14 +661,25 @@ theorem uintFromStr_of_correct {n radix : Nat} {s : List Nat}
 `Empty` / `InvalidDigit` for non-numerals; never `InputSize` -/
 theorem boxedFromStr_of_correct {radix : Nat} {s : List Nat}
     (h : DecodeCorrect radix s none (decodeStr radix s ⟨none, []⟩)) :
-    (∀ v, specParse radix s = .ok v → ∃ l, boxedFromStr radix s = .ok l ∧ val l = v ∧ WF l) ∧
+    (∀ v, specParse radix s = .ok v → ∃ l, boxedFromStr radix s = .ok l ∧ val l = v ∧ WF l ∧ l ≠ []) ∧
     (specParse radix s = .error .empty → boxedFromStr radix s = .error .empty) ∧
     (specParse radix s = .error .invalidDigit → boxedFromStr radix s = .error .invalidDigit) := by
   obtain ⟨hv, he, hi⟩ := h
   refine ⟨?_, ?_, ?_⟩
   · intro v hs
     rcases hv v hs with ⟨t, ht, hval, hwf, _, _⟩ | ⟨_, m, hm, _⟩
-    · exact ⟨t.limbs, by unfold boxedFromStr; rw [ht], hval, hwf⟩
+    · refine ⟨if t.limbs.isEmpty then [0] else t.limbs, by unfold boxedFromStr; rw [ht], ?_, ?_, ?_⟩
+      · by_cases he : t.limbs.isEmpty = true
+        · rw [if_pos he]
+          have : t.limbs = [] := by simpa using he
+          rw [this] at hval; simpa using hval
+        · rw [if_neg he]; exact hval
+      · by_cases he : t.limbs.isEmpty = true
+        · rw [if_pos he]; intro x hx; simp at hx; subst hx; exact B_pos
+        · rw [if_neg he]; exact hwf
+      · by_cases he : t.limbs.isEmpty = true
+        · rw [if_pos he]; simp
+        · rw [if_neg he]; simpa using he
     · exact absurd hm (by simp)
   · intro hs; unfold boxedFromStr; rw [he hs]
   · intro hs
